@@ -119,7 +119,8 @@ def main():
             pass
         evidence['wall_s'] = round(time.time() - t0, 2)
         evidence['violations'] = len(violations)
-        lib.write_evidence(prop, evidence)
+        if not replay:
+            lib.write_evidence(prop, evidence)
         for l in out_lines:
             print(l)
         sys.stdout.flush()
